@@ -1022,16 +1022,18 @@ pub fn suite_fault(out: &mut Out, tier: &str, rng: &mut Rng) {
             if m == 0 {
                 continue;
             }
-            let mt = enc_avp(&gen_message_type(rng));
-            let good = enc_payload(&gen_avp_kind(rng, ki, 8));
-            let cut = rng.below(m as u64) as usize;
-            let mk = |p: &[u8]| {
-                let mut b = mt.clone();
-                b.extend(enc_record(1, 6 + p.len(), 0, *t, p));
-                b
-            };
-            let i = ids(rng);
-            emit(out, ctl(&mk(&good), i), ctl(&mk(&good[..cut]), i), "IncompleteAVP", *t as u32, &strict);
+            // every truncation point 0..m-1 of the fixed part
+            for cut in 0..m {
+                let mt = enc_avp(&gen_message_type(rng));
+                let good = enc_payload(&gen_avp_kind(rng, ki, 8));
+                let mk = |p: &[u8]| {
+                    let mut b = mt.clone();
+                    b.extend(enc_record(1, 6 + p.len(), 0, *t, p));
+                    b
+                };
+                let i = ids(rng);
+                emit(out, ctl(&mk(&good), i), ctl(&mk(&good[..cut]), i), "IncompleteAVP", *t as u32, &strict);
+            }
         }
         // non-UTF-8 text
         for t in [8u16, 21, 22, 23, 12, 1] {
